@@ -25,7 +25,8 @@ def versions(tier):
                     out.append("%d.%d.%d%s" % (M, m, p, suffix))
     out += ["1.10.0", "1.9.0", "10.0.0", "0.10.1", "0.9.9"]
     # same major.minor with other patches, prerelease-only and build-only suffixes (patch numbers and suffixes never matter)
-    out += ["0.1.9", "0.3.0+b5", "1.1.0", "1.1.11-rc.1", "2.3.11-rc.1", "3.0.7", "1.0.0-alpha", "2.1.1+exp.sha.5114f85"]
+    out += ["0.1.9", "0.3.0+b5", "1.1.0", "1.1.11-rc.1", "2.3.11-rc.1", "3.0.7", "1.0.0-alpha", "2.1.1+exp.sha.5114f85",
+            "1.1.0-dev", "1.1.0-preview.2", "1.0.3+rev42", "0.3.0+nov", "0.1.4-v", "2.0.0-v1", "3.1.0+v"]
     return out
 
 
